@@ -60,6 +60,9 @@ def match_approx(c):
 
 def literal_value(n):
     n = strip(n)
+    if n.get('kind') == 'UnaryOperator' and n.get('opcode') in ('+', '-') and kids(n):
+        v = literal_value(kids(n)[0])
+        return None if v is None else (v if n['opcode'] == '+' else -v)
     if n.get('kind') in ('IntegerLiteral', 'FloatingLiteral'):
         try:
             return float(n['value'])
@@ -626,3 +629,95 @@ def magnitude_rule(chk, prog, funcs, control=None):
             chk.instance(R, 'positive control controls/magnitude.c is flagged')
         else:
             chk.broke('rule G.magnitude did not flag its positive control controls/magnitude.c')
+
+
+# ---------------------------------------------------------------------------------------
+# centred spread: a column without spread must give exactly zero
+
+def centered_spread(chk, prog, names):
+    R = chk.rule('G.centered-spread', 'the spread statistic handed out by the column SDEV/variance routines is accumulated from deviations '
+                 '(cell - column mean) of the guarded cells, so that a constant column yields exactly 0 (a one-pass sum-of-squares '
+                 'formula cancels catastrophically and can even go negative)')
+    for name in names:
+        f = prog.funcs.get(name)
+        if f is None:
+            chk.broke('centered-spread: %s not found' % name)
+            continue
+        pids = {p['id'] for p in f.params}
+        # the value appended to the output vector
+        outs = []
+        for cn, node in f.calls:
+            if cn == 'DVectorAppend' and len(call_args(node)) == 2:
+                outs.append((node, call_args(node)[1]))
+        if not outs:
+            chk.broke('centered-spread: %s appends nothing to its output' % name)
+            continue
+        for node, val in outs:
+            v = strip(val)
+            while v.get('kind') == 'CallExpr' and callee_name(v) in ('sqrt', 'fabs') and call_args(v):
+                v = strip(call_args(v)[0])
+            if v.get('kind') != 'DeclRefExpr':
+                chk.instance(R, '%s: appended value `%s` is not a plain accumulator' % (name, f.unit.text(val)[:50]), 'undecided')
+                continue
+            vid = v['referencedDecl']['id']
+            # mean variables: locals that are divided by a count at some point
+            means = set()
+            for x in walk(f.body):
+                if x.get('kind') == 'CompoundAssignOperator' and x.get('opcode') == '/=':
+                    means.add(fe.ref_id(kids(x)[0]))
+                if is_assign(x) and x.get('opcode') == '=' and strip(kids(x)[1]).get('kind') == 'BinaryOperator' and strip(kids(x)[1]).get('opcode') == '/':
+                    means.add(fe.ref_id(kids(x)[0]))
+            means.discard(vid)
+            accs, other = [], []
+            for x in walk(f.body):
+                tgt = rhs = None
+                if x.get('kind') == 'CompoundAssignOperator' and fe.ref_id(kids(x)[0]) == vid:
+                    tgt, rhs, op = x, kids(x)[1], x['opcode']
+                    if op in ('+=',):
+                        accs.append((x, rhs))
+                    elif op in ('/=', '*='):
+                        pass
+                    else:
+                        other.append(x)
+                elif is_assign(x) and x.get('opcode') == '=' and fe.ref_id(kids(x)[0]) == vid:
+                    r = strip(kids(x)[1])
+                    if literal_value(r) is not None:
+                        continue                      # initialisation
+                    # v = v / (n-1)   scaling of the accumulated value
+                    if r.get('kind') == 'BinaryOperator' and r.get('opcode') in ('/', '*') and fe.ref_id(kids(r)[0]) == vid:
+                        continue
+                    if r.get('kind') == 'BinaryOperator' and r.get('opcode') == '+' and fe.ref_id(kids(r)[0]) == vid:
+                        accs.append((x, kids(r)[1]))
+                        continue
+                    other.append(x)
+            def centred(e):
+                # contains  (input cell) - (mean variable)
+                for y in walk(e):
+                    if y.get('kind') == 'BinaryOperator' and y.get('opcode') == '-':
+                        a, b = (strip(z) for z in kids(y))
+                        if is_input_cell(a, pids) and b.get('kind') == 'DeclRefExpr' and b['referencedDecl']['id'] in means:
+                            return True
+                    if y.get('kind') == 'DeclRefExpr' and y['referencedDecl'].get('kind') == 'VarDecl':
+                        # a local holding the deviation:  double a = cell - mean
+                        d = f.unit.by_id.get(y['referencedDecl']['id'])
+                        if d is not None and kids(d) and d is not e:
+                            ini = strip(kids(d)[-1])
+                            if ini.get('kind') == 'BinaryOperator' and ini.get('opcode') == '-':
+                                a, b = (strip(z) for z in kids(ini))
+                                if is_input_cell(a, pids) and b.get('kind') == 'DeclRefExpr' and b['referencedDecl']['id'] in means:
+                                    return True
+                return False
+            bad = [x for x, rhs in accs if not centred(rhs)]
+            desc = '%s: `%s` accumulated by %d statement(s)' % (name, v['referencedDecl']['name'], len(accs))
+            if accs and not bad and not other:
+                chk.instance(R, desc + ', all of deviations to the column mean')
+            else:
+                where = (bad or other or [node])[0]
+                why = ('it is not accumulated at all but assigned `%s`' % f.unit.text(other[0])[:70]) if (other and not accs) else \
+                      ('an accumulated term is not a deviation to the mean: `%s`' % f.unit.text(bad[0])[:70]) if bad else \
+                      ('it is also assigned `%s`' % f.unit.text(other[0])[:70]) if other else 'no accumulation found'
+                chk.instance(R, desc + ': ' + why, 'refuted')
+                chk.violation(Finding('G.centered-spread', rel(f.file), name, 'spread:' + v['referencedDecl']['name'], f.unit.where(where),
+                                      '%s: the spread `%s` handed to the caller is not a sum of squared deviations (cell - mean): %s; a constant '
+                                      'column then yields a tiny non-zero or negative value (NaN after sqrt) instead of exactly 0' % (
+                                          name, v['referencedDecl']['name'], why)))
